@@ -54,6 +54,41 @@ def has_quantifier(t):
     return res
 
 
+_lin_cache = {}
+
+
+def is_linear(t):
+    """quantifier-free and without products / quotients of two non-constant terms, powers or SQRT/POW applications"""
+    if isinstance(t, bool):
+        return True
+    key = t.get_id()
+    if key in _lin_cache and _lin_cache[key][1].eq(t):
+        return _lin_cache[key][0]
+    stack, seen, res = [t], set(), True
+    while stack:
+        x = stack.pop()
+        i = x.get_id()
+        if i in seen:
+            continue
+        seen.add(i)
+        if z3.is_quantifier(x):
+            res = False
+            break
+        if x.num_args():
+            k = x.decl().kind()
+            nonconst = sum(1 for c in x.children() if not (z3.is_rational_value(c) or z3.is_int_value(c)))
+            if (k == z3.Z3_OP_MUL and nonconst >= 2) or (k in (z3.Z3_OP_DIV, z3.Z3_OP_IDIV, z3.Z3_OP_MOD) and
+                                                        not (z3.is_rational_value(x.arg(1)) or z3.is_int_value(x.arg(1)))) \
+                    or k == z3.Z3_OP_POWER or (k == z3.Z3_OP_UNINTERPRETED and x.decl().name() in ('SQRT', 'POW', 'LOG')):
+                res = False
+                break
+        stack.extend(x.children())
+    if len(_lin_cache) > 200000:
+        _lin_cache.clear()
+    _lin_cache[key] = (res, t)
+    return res
+
+
 class Heap(dict):
     """heap cells; a row view (ref.meta['parent'] = (rows ref, index term)) reads and writes through its parent"""
     def __getitem__(self, r):
@@ -85,6 +120,10 @@ class State:
         # over-approximation is sound there: an infeasible path explored anyway proves its obligations vacuously)
         self.light = z3.Solver()
         self.light.set('timeout', 4000)
+        # linear solver: only the linear quantifier-free facts.  `unsat` there is `unsat` of the whole path condition, and
+        # it answers at once where nonlinear clutter makes the other two wander (e.g. "is the sum of the weights zero?")
+        self.lin = z3.Solver()
+        self.lin.set('timeout', 2000)
         self.timeout_ms = timeout_ms
         self.pc = []
         self.heap = Heap()
@@ -159,18 +198,24 @@ class State:
         self.solver.add(cond)
         if not has_quantifier(cond):
             self.light.add(cond)
+            if is_linear(cond):
+                self.lin.add(cond)
 
     def push(self, *conds):
         self.solver.push()
         self.light.push()
+        self.lin.push()
         for c in conds:
             self.solver.add(c)
             if not has_quantifier(c):
                 self.light.add(c)
+                if is_linear(c):
+                    self.lin.add(c)
 
     def pop(self):
         self.solver.pop()
         self.light.pop()
+        self.lin.pop()
 
     def _check_light(self, extra):
         t0 = time.time()
@@ -198,6 +243,16 @@ class State:
         """is pc /\\ cond satisfiable?  unknown counts as feasible (sound for proofs)."""
         if has_quantifier(cond):
             return self._check(cond) != z3.unsat
+        if is_linear(cond):
+            t0 = time.time()
+            self.lin.push()
+            self.lin.add(cond)
+            rl = self.lin.check()
+            self.lin.pop()
+            self.solver_secs += time.time() - t0
+            self.n_queries += 1
+            if rl == z3.unsat:
+                return False
         r = self._check_light(cond)
         if r == z3.unknown:
             r = self._check(cond)      # the light solver timed out (loaded machine): ask the full one
@@ -233,8 +288,26 @@ class State:
             self.decisions.append(d)
             self.assume(cond if d else z3.Not(cond))
             return d
+        if is_linear(cond):
+            # forced by the linear facts alone?  (cheap, and spares the nonlinear solver a model search)
+            for c, val in ((z3.Not(cond), True), (cond, False)):
+                t0 = time.time()
+                self.lin.push()
+                self.lin.add(c)
+                rl = self.lin.check()
+                self.lin.pop()
+                self.solver_secs += time.time() - t0
+                self.n_queries += 1
+                if rl == z3.unsat:
+                    self.decisions.append(val)
+                    self.assume(cond if val else z3.Not(cond))
+                    return val
         ft = self.feasible(cond)
-        ff = self.feasible(z3.Not(cond))
+        # if one side is refuted the other one is taken without asking whether it is satisfiable: on a feasible path
+        # it must be, and exploring an infeasible path is sound for proofs (refutations need a model anyway).  This
+        # avoids the expensive direction -- finding a model of a nonlinear path condition -- for guards such as
+        # `denominator == 0` that are plainly excluded
+        ff = self.feasible(z3.Not(cond)) if ft else True
         if ft and ff:
             self.alternatives.append(self.decisions + [False])
             self.decisions.append(True)
@@ -296,6 +369,15 @@ class State:
             self.obligations.append(Obl(label, 'trivial', 0.0, detail))
             return
         r = z3.unknown
+        from . import algebra
+        if algebra.looks_polynomial(claim) and algebra.prove_identities(claim, [a for a in self.pc if not has_quantifier(a)]) is True:
+            # identity of rational functions (normal form): holds wherever the denominators are non-zero, which the
+            # path condition ensures (division by zero raises on another path).  See pyvc/algebra.py
+            o = Obl(label, 'discharged', time.time() - t0, detail, backend='sympy (rational-function normal form)')
+            self.obligations.append(o)
+            self.trusted.add('sympy cancel/expand as a decision procedure for rational-function identities (pyvc/algebra.py)')
+            self.assume(claim)
+            return
         if any(has_quantifier(a) for a in self.pc[-60:]) or has_quantifier(claim):
             # quantified hypotheses: first try E-matching only (model-based instantiation off), it is much
             # faster on valid obligations; fall back to the default configuration otherwise
